@@ -16,7 +16,8 @@ def confirm(item):
         if r.returncode: return {**out, "error": r.stderr}
         r = sh(f"git apply {src}/patch.diff", cwd=wt)
         if r.returncode: return {**out, "error": "patch does not apply: " + r.stderr}
-        t = sh("/venv/bin/python -m pytest -q -p no:cacheprovider --timeout=900 --benchmark-disable -x 2>&1 | tail -3", cwd=wt)
+        # private disk cache: test_diskcache::test_auto reads the per-user cache, which concurrent worktrees pollute
+        t = sh(f"XDG_CACHE_HOME={wt}/.xdgcache /venv/bin/python -m pytest -q -p no:cacheprovider --timeout=900 --benchmark-disable -x 2>&1 | tail -3", cwd=wt)
         out["suite_tail"] = t.stdout.strip().splitlines()[-1:] 
         out["suite_passes"] = " passed" in t.stdout and " failed" not in t.stdout and "error" not in t.stdout.lower().split("passed")[0][-200:]
         d = sh(f"/venv/bin/python {src}/demo.py", cwd=wt)
